@@ -126,3 +126,11 @@ Theorem c10_comparison_sources_call_their_own_operator :
   forallb (fun e => negb (is_comparison e) || shape_ok e) src_ops = true
   /\ List.length (filter is_comparison src_ops) = 12%nat.
 Proof. split; vm_compute; reflexivity. Qed.
+
+(* Ord::max / Ord::min and the float max / min of the source are the storage type's own method on the stored values (so that even
+   the choice between two equal operands is the storage type's) *)
+From UomV Require Import Model.DelegSrc Gen.DelegSrc Spec.DelegTie.
+Theorem c10_max_min_sources_are_direct :
+  forallb (fun e => negb (String.eqb (dl_fn e) "max" || String.eqb (dl_fn e) "min") || deleg_ok e) src_delegations = true
+  /\ List.length (filter (fun e => String.eqb (dl_fn e) "max" || String.eqb (dl_fn e) "min") src_delegations) = 4%nat.
+Proof. split; vm_compute; reflexivity. Qed.
